@@ -276,7 +276,7 @@ impl Monitor for C02 {
          calls, all six relational operators on A/X/Y, CLC/SEC-LDA swaps, PLA/PHA pairs, transfers) + a window of the random \
          program pool. Each program is compiled at -O0,-O1,-O2,-O3 and co-executed on the emulator from 6 identical input \
          vectors; all RAM variables (incl. locals), X and Y must be equal and termination must agree within a 10x+1000 cycle \
-         bound. distinct = by source hash; non-trivial = co-executed AND the -O1 text differs from the -O0 text"
+         bound. Kind baitsplit: the bait programs with their scalars in superchip RAM. distinct = by source hash; non-trivial = co-executed AND the -O1 text differs from the -O0 text"
             .into()
     }
     fn assumptions(&self) -> Vec<String> {
